@@ -22,7 +22,11 @@ EXPLANATION = (
 HOST_PREFIXES = ("errno.", "signal.", "socket.", "platform.", "locale.", "resource.", "termios.", "fcntl.", "stat.", "select.",
                  "mmap.", "pwd.", "grp.", "tty.", "posix.", "nt.")
 HOST_EXACT = {"os.strerror", "os.name", "os.uname", "os.sep", "os.linesep", "sys.platform", "sys.byteorder",
-              "os.errno", "errno", "signal", "socket", "platform", "locale"}
+              "os.errno", "errno", "signal", "socket", "platform", "locale",
+              # text <-> bytes through the host's file-system / locale encoding and error handler
+              "os.fsdecode", "os.fsencode", "sys.getfilesystemencoding", "sys.getfilesystemencodeerrors",
+              "locale.getpreferredencoding", "locale.getencoding", "os.device_encoding", "os.path.sep", "os.pathsep",
+              "os.getcwd", "os.path.expanduser", "time.localtime", "time.strftime", "time.tzname"}
 # host independent helpers of those modules (pure functions of their argument)
 PURE = {"socket.inet_ntoa", "socket.inet_ntop", "socket.inet_aton", "socket.inet_pton", "socket.ntohs", "socket.ntohl",
         "socket.htons", "socket.htonl", "stat.S_IMODE", "stat.S_IFMT"}
